@@ -393,7 +393,8 @@ pub fn gen_plan(seed: u64, index: usize) -> Plan {
     let mut rng = Rng::new(seed, "c09");
     let mut net = NetCfg::clean(rng.next_u64());
     net.lat_min_us = *rng.pick(&[200u64, 1_000, 10_000]);
-    let rl = *rng.pick(&[0usize, 1, 20, 200]);
+    // QUIC reason phrases may be longer than the 1024 bytes a close capsule can carry
+    let rl = *rng.pick(&[0usize, 1, 20, 200, 1024, 1025, 1060]);
     let code = *rng.pick(&[0u64, 1, 0x100, 0x10c, (1 << 62) - 1, 77]);
     let cause = match index % 7 {
         0 => Cause::PeerClose { code, reason_hex: harness::hex(&rng.bytes(rl)) },
@@ -762,11 +763,12 @@ impl TypedScenario for C09Raw {
         net.lat_min_us = *rng.pick(&[200u64, 1_000, 5_000]);
         let rl = *rng.pick(&[0usize, 3, 100, 1024]);
         let reason: String = (0..rl).map(|i| (b'a' + (i % 26) as u8) as char).collect();
+        let quic_rl = *rng.pick(&[0usize, 3, 100, 1024, 1025, 1060]);
         let cause = match index % 10 {
             0 | 1 => Cause::Capsule { code: rng.next_u64() as u32, reason_hex: harness::hex(reason.as_bytes()) },
             2 => Cause::CleanFin,
             3..=8 => Cause::ProtocolViolation { kind: (index % 10 - 3) as u8 },
-            _ => Cause::PeerClose { code: rng.range(0, (1 << 62) - 1), reason_hex: harness::hex(&rng.bytes(rl.min(200))) },
+            _ => Cause::PeerClose { code: rng.range(0, (1 << 62) - 1), reason_hex: harness::hex(&rng.bytes(quic_rl)) },
         };
         let app_drops_all = rng.chance_pm(250);
         RawPlan { seed, rt: RtKnobs::from_rng(&mut rng), net, server_under_test: index % 2 == 0, cause, clones: rng.usize(1, 3), stalled_stream: rng.below(3) as u8, app_drops_all, extra_requests: if rng.chance_pm(350) { rng.range(1, 4) as u8 } else { 0 } }
